@@ -190,7 +190,12 @@ func (g *CopyChainGenerator) processBatch(batch scanner.EntryBatch, chains chan 
 			klog.V(4).Infof("skip entry %d as EntryType=%d not %d", index, entry.Leaf.TimestampedEntry.EntryType, eType)
 			continue
 		}
-		root, err := x509.ParseCertificate(entry.Chain[len(entry.Chain)-1].Data)
+		// An entry logged without a chain is a trusted root submitted on its own: it is its own root.
+		rootData := entry.Cert.Data
+		if n := len(entry.Chain); n > 0 {
+			rootData = entry.Chain[n-1].Data
+		}
+		root, err := x509.ParseCertificate(rootData)
 		if err != nil {
 			klog.V(3).Infof("skip entry %d as its root cannot be parsed to check accepted: %v", index, err)
 			continue
